@@ -113,6 +113,33 @@ def func_case(case):
                                     f"({now_dt}): server wrote {s!r}, client parsed {got}, expected {want}",
                              "replay_case": dict(case, nows=[now], only_m=m)})
                 break
+    # the same date strings parsed at different moments of one long-lived process, *without* an explicit `now`
+    # (the parser then uses the clock): whatever it remembers between calls must not change the answer
+    shim_ok = install_shims()
+    if shim_ok:
+        for y in sorted({time.localtime(n0).tm_year for n0 in case["nows"]})[:2]:
+            seq = [int(time.mktime((y, mo, d, 12, 0, 0, 0, 0, -1))) for (mo, d) in ((1, 10), (3, 1), (6, 30), (9, 15), (12, 28))]
+            for now in seq:
+                _Clock.now = now
+                lt = time.localtime(now)
+                for (mo, d, hh, mm) in ((12, 20, 10, 30), (1, 5, 8, 0), (6, 1, 23, 59), (2, 28, 0, 1), (9, 14, 12, 0), (12, 27, 1, 2)):
+                    for yy in (lt.tm_year, lt.tm_year - 1):
+                        m = int(time.mktime((yy, mo, d, hh, mm, 0, 0, 0, -1)))
+                        if not (now - H + 2 * 86400 < m <= now):
+                            continue
+                        n += 1
+                        try:
+                            s_ = build(m)          # server side, clock = shim
+                            got = parse(s_)        # client side, clock = shim
+                        except Exception as e:
+                            viol.append({"key": "date-roundtrip-raises", "msg": f"TZ={case['tz']} m={m} now={now}: {e!r}"})
+                            continue
+                        want = expected_ls(m, now)
+                        if got != want:
+                            viol.append({"key": "ls-date-depends-on-earlier-calls",
+                                         "msg": f"TZ={case['tz']}: {s_!r} listed and parsed at {time.strftime('%Y-%m-%d', lt)} gave {got}, "
+                                                f"expected {want} (same process parsed the same strings at earlier dates of {y})"})
+        _Clock.now = None
     # full lines with big sizes
     loop = asyncio.new_event_loop()
     try:
@@ -247,9 +274,12 @@ async def e2e(net, hyg, plan):
         w = W.World(net)
         # replace the factory by the stat-overriding back end
         w.server = aioftp.Server([aioftp.User(base_path="/")], path_io_factory=FakeStat, **srv_kwargs)
-        if plan["fallback"]:
+        fb = plan["fallback"]
+        if fb in (True, "both", "no_mlsd"):
             del w.server.commands_mapping["mlsd"]
+        if fb in (True, "both", "no_mlst"):
             del w.server.commands_mapping["mlst"]
+        D = plan.get("dirname", "dir")
         await w.server.start("127.0.0.1", 2121)
         c = aioftp.Client(path_io_factory=aioftp.MemoryPathIO)
         await c.connect("127.0.0.1", 2121)
@@ -260,23 +290,26 @@ async def e2e(net, hyg, plan):
             nursery = w.server.path_io_factory
             if nursery.state is None:
                 nursery(timeout=None, connection=None)
-            spec = {"/dir": _DIR}
-            spec.update({"/dir/" + name: (_DIR if typ == "dir" else b"") for name, (typ, size, mtime) in entries.items()})
+            spec = {"/" + D: _DIR}
+            spec.update({"/" + D + "/" + name: (_DIR if typ == "dir" else b"") for name, (typ, size, mtime) in entries.items()})
             memory_populate(nursery.state, spec)
         else:
-            await c.make_directory("/dir")
+            await c.make_directory("/" + D)
             for name, (typ, size, mtime) in entries.items():
                 if typ == "dir":
-                    await c.make_directory("/dir/" + name)
+                    await c.make_directory("/" + D + "/" + name)
                 else:
-                    async with c.upload_stream("/dir/" + name) as s:
+                    async with c.upload_stream("/" + D + "/" + name) as s:
                         pass
-        await c.change_directory(rng.choice(["/", "/dir"]))
+        rel = plan.get("relative", False)
+        await c.change_directory("/" if rel else rng.choice(["/", "/" + D]))
+        LP = D if rel else "/" + D          # how the directory is spelled in list()/stat()
 
-        def judge(kind, listed, mon_key):
+        def judge(kind, listed, mon_key, only=None):
+            want_names = sorted(only) if only is not None else sorted(entries)
             got_names = sorted(str(p.name) for p, info in listed)
-            if got_names != sorted(entries):
-                viol.append({"key": f"{kind}-entry-set-differs", "msg": f"{kind}: listed {got_names}, back end has {sorted(entries)}"})
+            if got_names != want_names:
+                viol.append({"key": f"{kind}-entry-set-differs", "msg": f"{kind} of {LP!r}: listed {got_names[:8]}, back end has {want_names[:8]}"})
                 return
             for p, info in listed:
                 typ, size, mtime = entries[p.name]
@@ -285,37 +318,36 @@ async def e2e(net, hyg, plan):
                     viol.append({"key": f"{kind}-type-wrong", "msg": f"{kind}: {p.name}: type {info.get('type')} vs {typ}"})
                 if typ == "file" and str(info.get("size")) != str(size):
                     viol.append({"key": f"{kind}-size-wrong", "msg": f"{kind}: {p.name}: size {info.get('size')} vs {size}"})
-                if kind.startswith("mls"):
-                    want = time.strftime("%Y%m%d%H%M%S", time.gmtime(mtime))
-                else:
-                    want = expected_ls(mtime, now)
+                want = time.strftime("%Y%m%d%H%M%S", time.gmtime(mtime)) if kind.startswith("mls") else expected_ls(mtime, now)
                 if info.get("modify") != want:
                     viol.append({"key": f"{kind}-modify-wrong",
-                                 "msg": f"{kind}: {p.name}: modify {info.get('modify')} vs {want} (mtime {mtime}, now {now}, shim {shim_ok})"})
+                                 "msg": f"{kind}: {p.name}: modify {info.get('modify')} vs {want} (mtime {mtime}, now {now}, shim {shim_ok}, "
+                                        f"server lacks {fb or 'nothing'}, order {plan.get('order')})"})
 
-        if not plan["fallback"]:
-            judge("mlsd", await c.list("/dir"), "mlsx_entries")
-            judge("list", await c.list("/dir", raw_command="LIST"), "list_entries")
+        async def do_list():
+            if fb in (True, "both", "no_mlsd"):
+                judge("list-fallback", await c.list(LP), "list_entries")
+            else:
+                judge("mlsd", await c.list(LP), "mlsx_entries")
+                judge("list", await c.list(LP, raw_command="LIST"), "list_entries")
+
+        async def do_stat():
+            some = list(entries)[:4]
             st = []
-            for name in entries:
-                info = await c.stat("/dir/" + name)
-                st.append((aioftp.client.pathlib.PurePosixPath(name), info))
-            judge("mlst", st, "stat_entries")
-        else:
-            judge("list-fallback", await c.list("/dir"), "list_entries")
-            st = []
-            for name in list(entries)[:4]:
-                info = await c.stat("/dir/" + name)
+            for name in some:
+                info = await c.stat(LP + "/" + name)
                 st.append((aioftp.client.pathlib.PurePosixPath(name), info))
             if st:
-                sub = {k: entries[k] for k in list(entries)[:4]}
-                saved = dict(entries)
-                entries.clear()
-                entries.update(sub)
-                judge("stat-fallback", st, "stat_entries")
-                entries.clear()
-                entries.update(saved)
-            mon["mlsx_entries"] += 0
+                # without MLST the client lists the parent: exact facts if MLSD exists, ls precision if it does not either
+                kind = "stat-fallback" if fb in (True, "both") else ("mlsd-stat-fallback" if fb == "no_mlst" else "mlst")
+                judge(kind, st, "stat_entries", only=some)
+        if plan.get("order") == "stat-first":
+            await do_stat()
+            await do_list()
+        else:
+            await do_list()
+            await do_stat()
+        mon["mlsx_entries"] += 0
         await c.quit()
         await w.stop()
         return {"violations": viol, "monitors": mon, "sig": sig_of([sorted(entries.items()), now, plan["fallback"]]),
@@ -365,7 +397,9 @@ def gen_cases(tier, seed):
                [(2024, 1, 1, 0), (2024, 2, 29, 12), (2024, 3, 1, 0), (2025, 1, 2, 3), (2025, 3, 1, 1), (2023, 12, 31, 23), (2026, 7, 2, 0), (2030, 6, 15, 12)]]
     plans = []
     for i in range(nd):
-        plans.append({"seed": seed * 7 + i, "n": rng.choice([0, 1, 2, 3, 5, 8, 12, 31, 32, 33, 34, 65, 100, 257]), "fallback": i % 3 == 0,
+        plans.append({"seed": seed * 7 + i, "n": rng.choice([0, 1, 2, 3, 5, 8, 12, 31, 32, 33, 34, 65, 100, 257]),
+                      "fallback": [False, "both", "no_mlsd", "no_mlst", False, "both"][i % 6], "order": ["list-first", "stat-first"][(i // 6) % 2],
+                      "dirname": rng.choice(["dir", "dir", "-tmp", "-la", "d ir", "-R"]), "relative": rng.random() < 0.5,
                       "now": rng.choice(special) if i % 2 else rng.randrange(946684800, 2208988800)})
     per = 10
     for j, i in enumerate(range(0, len(plans), per)):
